@@ -291,7 +291,7 @@ pub fn gen_iter_case(rng: &mut Rng, it: u64) -> IterCase {
             if a == b { continue; }
             let cp = CardPair::new(a, b);
             if r.iter().any(|x| x.0 == cp) { continue; }
-            let w = [1.0f32, 0.5, 0.25, 0.75][rng.below(4) as usize];
+            let w = [1.0f32, 0.5, 0.25, 0.75, 0.0][rng.below(5) as usize];   // weight 0 is a weight like any other: the deal is still enumerated
             r.push((cp, w));
         }
         ranges.push(r);
@@ -689,12 +689,21 @@ pub fn c05_search(seed: u64, n: u64) -> i32 {
     if "".parse::<HandRange>().map(|r| r.card_pairs().len()).unwrap_or(99) != 0 { println!("WITNESS c05 - :: the empty string is not the empty range"); return 1; }
     for _ in 0..n {
         tried += 1;
-        let k = 1 + rng.below(4) as usize;
+        let k = 1 + rng.below(5) as usize;
         let mut text = String::new();
         let mut want: std::collections::HashMap<String, f32> = std::collections::HashMap::new();
+        let mut chosen: Vec<(usize, usize)> = vec![];
         for i in 0..k {
-            let (t, combos) = &shapes[rng.below(shapes.len() as u64) as usize];
-            let (wt, w) = weights[rng.below(5) as usize];
+            // a fresh token, or (to force overlaps) an earlier token of this list again: the same text, or the same
+            // shape with another weight -- the later occurrence must still win
+            let (si, wi) = match (i, rng.below(3)) {
+                (0, _) | (_, 0) => (rng.below(shapes.len() as u64) as usize, rng.below(5) as usize),
+                (_, 1) => chosen[rng.below(i as u64) as usize],
+                _ => (chosen[rng.below(i as u64) as usize].0, rng.below(5) as usize),
+            };
+            chosen.push((si, wi));
+            let (t, combos) = &shapes[si];
+            let (wt, w) = weights[wi];
             if i > 0 { text.push_str(if rng.below(2) == 0 { "," } else { " , " }); }
             text.push_str(t); text.push_str(wt);
             for c in combos { want.insert(c.to_string(), w); }
